@@ -226,8 +226,8 @@ def tasks(tier, seed):
                                    "T": Tv, "R": Rq, "rng_k": 0, "cost": 1})
                 else:
                     ts.append({"kind": "algo", "label": "full/" + lab, "cfg": cfg, "mode": "full",
-                               "T": 3 if tier == "quick" else 4, "R": Rq, "rng_k": 1 if tier == "quick" else 2,
-                               "max_exec": 3000 if tier == "quick" else 40000})
+                               "T": 3 if tier == "quick" else 4, "R": Rq, "rng_k": 1,
+                               "max_exec": 3000 if tier == "quick" else 8000})
                 bases = ("twopeak", "neg") if tier == "quick" else ("zero", "neg", "alt", "peak", "negpeak", "twopeak")
                 for b in bases:
                     ts.append({"kind": "algo", "label": "base/%s/%s" % (lab, b), "cfg": cfg, "mode": "dev", "T": 100,
@@ -271,6 +271,6 @@ def replay(task, script):
 
 def bounds(tier):
     return {"configs": "%d parameter variants x 11 partitions x 6 boxes%s" % (len(param_grid()), " (seed-rotated quarter)" if tier == "quick" else ""),
-            "full_T": 3 if tier == "quick" else 4, "full_rewards": list(configs.R4), "full_rng_deviations": 1 if tier == "quick" else 2,
+            "full_T": 3 if tier == "quick" else 4, "full_rewards": list(configs.R4), "full_rng_deviations": 1,
             "base_scripts_T": 100, "dev_T": 40 if tier == "quick" else 100, "dev_k": 1,
             "last_point_query_rounds": sorted(QUERY_ROUNDS) + ["T"]}
